@@ -1,4 +1,5 @@
 import StorageModel.C17.SnapshotProofs
+import StorageModel.C17.StagedProofs
 import StorageModel.C17.LockProofs
 import StorageModel.C17.LockTable
 import StorageModel.Generated.DbLocks
@@ -142,6 +143,227 @@ theorem model_meets_spec (h : List Op) : specHolds h (run {} h).2 = true :=
     traces `specHolds` accepts, so it accepts every model trace -/
 theorem oracle_accepts_model (h : List Op) : specFirstFail {} h (run {} h).2 0 = none :=
   (specFirstFail_none_iff {} h _ 0).mpr (model_meets_spec h)
+
+/-! ## The restore in stages, with the caller re-entering through the reader
+
+  `RestoreFromReader(snapshot io.Reader)` runs caller code — `snapshot.Read` — inside stage 1
+  (persistSnapshot, no lock held).  That code may call back into the same DbImpl: a status poll
+  (`GetSnapshotId`), `GetTimelineId` in any mode, a View / Update transaction, `Snapshot`,
+  `StreamToWriter`, `AddRestoreListener`, another `RestoreSnapshot`.  `XOp.restoreCb k rd cbs` is that
+  restore: reader behaviour `rd`, and a queue `cbs` of calls, each with the position in the stream at
+  which it is issued (first Read / after a given share of the stream / on the Read reporting EOF).
+  The theorems below quantify over ALL queues, ALL positions and ALL reader behaviours. -/
+
+/-- **stage 1 is transparent.**  For every reader behaviour, every queue of calls and every choice of
+    positions: the temporary file is the snapshot file, every queued call has been issued, and system
+    and observations are those of the calls made one after the other on the state in which
+    RestoreFromReader was entered. -/
+theorem persist_stage_transparent (s : Sys) (f : Db) (rd : Reader) (cbs : List Cb) :
+    (stagePersist s f rd cbs).tmp = encodeDb f ∧
+    (stagePersist s f rd cbs).pending = [] ∧
+    (stagePersist s f rd cbs).sys = (run s (cbs.map Cb.act)).1 ∧
+    (stagePersist s f rd cbs).obs = (run s (cbs.map Cb.act)).2 :=
+  stagePersist_eq s f rd cbs
+
+/-- **the staged restore in closed form**: calls; swap in the file held by the slot AT ENTRY; fire. -/
+theorem staged_restore_closed_form (s : Sys) (k : Nat) (rd : Reader) (cbs : List Cb) (f : Db)
+    (hf : lookup k s.files = some f) :
+    xstep s (.restoreCb k rd cbs) =
+      ({ (run s (cbs.map Cb.act)).1 with
+           db := f, prev := some (run s (cbs.map Cb.act)).1.db,
+           fired := (run s (cbs.map Cb.act)).1.fired + (run s (cbs.map Cb.act)).1.listeners },
+       .restoredCb (run s (cbs.map Cb.act)).2
+         ((run s (cbs.map Cb.act)).1.fired + (run s (cbs.map Cb.act)).1.listeners) f) :=
+  xstep_restoreCb s k rd cbs f hf
+
+/-- **all interleaving points.**  Where in the stream the calls are issued, and how the reader
+    chops the stream up, is irrelevant: two restores that issue the same calls in the same order
+    are the same step (state and every observation). -/
+theorem staged_restore_position_independent (s : Sys) (k : Nat) (rd rd' : Reader) (cbs cbs' : List Cb)
+    (h : cbs.map Cb.act = cbs'.map Cb.act) :
+    xstep s (.restoreCb k rd cbs) = xstep s (.restoreCb k rd' cbs') := by
+  cases hf : lookup k s.files with
+  | none => rw [xstep_restoreCb_nofile s k rd cbs hf, xstep_restoreCb_nofile s k rd' cbs' hf]
+  | some f => rw [xstep_restoreCb s k rd cbs f hf, xstep_restoreCb s k rd' cbs' f hf, h]
+
+/-- **after the restore every observation is the restored snapshot's**, whatever was called (and
+    whatever those calls returned or changed) while the snapshot was streaming in — the calls may
+    write, request timeline ids, take snapshots even into slot `k`, restore other snapshots: the live
+    database is the file slot `k` held when RestoreFromReader was entered, a full dump shows it,
+    GetSnapshotId reports its id, and its reset marker decides the next timeline request. -/
+theorem staged_restore_installs (s : Sys) (k : Nat) (rd : Reader) (cbs : List Cb) (f : Db)
+    (hf : lookup k s.files = some f) :
+    let S := (xstep s (.restoreCb k rd cbs)).1
+    S.db = f ∧
+    (step S .dump).2 = .dump f ∧
+    (step S .gsid).2 = .sid (if f.mt.present then f.mt.sid else none) ∧
+    (f.mt.rt = some true → ∀ m, (step S (.gtl m true)).2 = .tl (some (S.idf + 1)) 1) := by
+  intro S
+  have hS : S.db = f := by simp only [S, xstep_restoreCb s k rd cbs f hf]
+  refine ⟨hS, by simp [step, hS], by simp [step, hS], ?_⟩
+  intro hrt m
+  exact (timeline_once S (by rw [hS]; exact hrt) m).1
+
+/-- … in particular the live database does not depend on the calls at all: it is the one the plain
+    restore (no calls, any reader) produces -/
+theorem staged_restore_db_eq_plain (s : Sys) (k : Nat) (rd rd' : Reader) (cbs : List Cb) :
+    (xstep s (.restoreCb k rd cbs)).1.db = (step s (.restore k rd')).1.db := by
+  cases hf : lookup k s.files with
+  | none => rw [xstep_restoreCb_nofile s k rd cbs hf]; simp [step, hf]
+  | some f => rw [xstep_restoreCb s k rd cbs f hf]; simp [step, hf]
+
+/-- a restore whose reader issues no call is the restore of the sequential model -/
+theorem staged_restore_nil (s : Sys) (k : Nat) (rd : Reader) :
+    (xstep s (.restoreCb k rd [])).1 = (step s (.restore k rd)).1 := by
+  cases hf : lookup k s.files with
+  | none => rw [xstep_restoreCb_nofile s k rd [] hf]; simp [step, hf]
+  | some f => rw [xstep_restoreCb s k rd [] f hf]; simp [step, hf, run]
+
+/-- the enlarged model is conservative: on histories of the old vocabulary it is the old model -/
+theorem staged_extends_plain (s : Sys) (h : List Op) :
+    xrun s (h.map .plain) = ((run s h).1, (run s h).2.map .plain) := by
+  induction h generalizing s with
+  | nil => rfl
+  | cons o os ih => simp [xrun, run, xstep, ih]
+
+/-- **calls made during the stream see the OLD database in full**: reading calls return what they
+    would have returned before RestoreFromReader was entered (none of them sees the incoming snapshot,
+    or a half-swapped state) -/
+theorem calls_during_stream_see_old (s : Sys) (k : Nat) (rd : Reader) (ps : List Pos) (as : List RoAct) (f : Db)
+    (hf : lookup k s.files = some f) (hl : ps.length = as.length) :
+    (xstep s (.restoreCb k rd ((ps.zip as).map fun pa => ⟨pa.1, pa.2.toOp⟩))).2 =
+      .restoredCb (as.map (roObs s)) (s.fired + s.listeners) f := by
+  have hm : ((ps.zip as).map fun pa => (⟨pa.1, pa.2.toOp⟩ : Cb)).map Cb.act = as.map RoAct.toOp := by
+    rw [List.map_map]
+    have : (Cb.act ∘ fun (pa : Pos × RoAct) => (⟨pa.1, pa.2.toOp⟩ : Cb)) = (RoAct.toOp ∘ Prod.snd) := rfl
+    rw [this, ← List.map_map, List.map_snd_zip (by omega)]
+  rw [xstep_restoreCb s k rd _ f hf, hm, run_ro]
+
+/-- **restore ∘ snapshot, staged.**  The headline over histories of the enlarged vocabulary (restores
+    with calls from inside their readers, transactions with reading calls around the copy, in `h1`
+    and `h2` as well) and a final restore whose reader issues ANY calls at ANY positions. -/
+theorem staged_restore_snapshot (s0 : Sys) (h1 h2 : List XOp) (k : Nat) (inTx : Bool) (rd : Reader) (cbs : List Cb)
+    (hk : XKeepsSlot k h2) :
+    let sA := (xrun s0 h1).1
+    (xrun s0 (h1 ++ [.plain (.snap k inTx)] ++ h2 ++ [.restoreCb k rd cbs])).1.db = mark sA.nextId sA.db ∧
+    (xrun s0 (h1 ++ [.plain (.snap k inTx)] ++ h2 ++ [.restoreCb k rd cbs])).1.db.content = sA.db.content := by
+  intro sA
+  have key : (xrun s0 (h1 ++ [.plain (.snap k inTx)] ++ h2 ++ [.restoreCb k rd cbs])).1.db = mark sA.nextId sA.db := by
+    simp only [xrun_append, List.append_assoc]
+    have hfile : lookup k (xrun (xrun (xrun s0 h1).1 [.plain (.snap k inTx)]).1 h2).1.files = some (mark sA.nextId sA.db) := by
+      rw [xrun_keeps_file _ h2 k hk]
+      simp [xrun, xstep, step, lookup_store_same, sA]
+    simp only [xrun] at hfile ⊢
+    rw [xstep_restoreCb _ k rd cbs _ hfile]
+  exact ⟨key, by rw [key]; rfl⟩
+
+/-- **snapshot id kept, staged**: whatever GetSnapshotId (or anything else) returned while the snapshot
+    was streaming in, after the restore it reports the id the snapshot operation returned -/
+theorem staged_snapshot_id_kept (s0 : Sys) (h1 h2 : List XOp) (k : Nat) (inTx : Bool) (rd : Reader) (cbs : List Cb)
+    (hk : XKeepsSlot k h2) :
+    let sA := (xrun s0 h1).1
+    (step (xrun s0 (h1 ++ [.plain (.snap k inTx)] ++ h2 ++ [.restoreCb k rd cbs])).1 .gsid).2 = .sid (some sA.nextId) := by
+  intro sA
+  have := (staged_restore_snapshot s0 h1 h2 k inTx rd cbs hk).1
+  simp only [step, this]
+  simp [mark, sA]
+
+/-- **listeners, staged**: every listener registered when the swap is done — those registered from
+    inside the reader included — is started once; invocations caused by restores nested in the reader
+    are counted before -/
+theorem staged_restore_fires_listeners (s : Sys) (k : Nat) (rd : Reader) (cbs : List Cb) (f : Db)
+    (hf : lookup k s.files = some f) :
+    let s1 := (run s (cbs.map Cb.act)).1
+    (xstep s (.restoreCb k rd cbs)).1.fired = s1.fired + s1.listeners ∧
+    (xstep s (.restoreCb k rd cbs)).1.listeners = s1.listeners := by
+  intro s1
+  rw [xstep_restoreCb s k rd cbs f hf]
+  exact ⟨rfl, rfl⟩
+
+/-- **timeline once, staged**: `timeline_once` with the continuation ranging over the enlarged
+    vocabulary (no further restore, no forced reset) -/
+theorem staged_timeline_once (s : Sys) (hrt : s.db.mt.rt = some true) (m : Mode) :
+    (step s (.gtl m true)).2 = .tl (some (s.idf + 1)) 1 ∧
+    ∀ (h : List XOp), (∀ o ∈ h, o.quiet = true) → ∀ (m' : Mode) (ok : Bool), m' ≠ .forceReset →
+      (step (xrun (step s (.gtl m true)).1 h).1 (.gtl m' ok)).2 = .tl (some (s.idf + 1)) 0 := by
+  have h1 : (step s (.gtl m true)) =
+      ({ s with idf := s.idf + 1,
+                db := { s.db with mt := { s.db.mt with present := true, tl := some (s.idf + 1), rt := some false } } },
+       .tl (some (s.idf + 1)) 1) := by
+    simp [step, getTimeline, hrt]
+  refine ⟨by rw [h1], ?_⟩
+  intro h hq m' ok hm'
+  have hs : Settled (s.idf + 1) (step s (.gtl m true)).1 := by rw [h1]; exact ⟨rfl, rfl⟩
+  obtain ⟨r1, r2⟩ := xrun_quiet_settled _ h _ hq hs
+  have hf : m'.force (xrun (step s (.gtl m true)).1 h).1.db.mt.tl = false := by
+    cases m' with
+    | default => rfl
+    | initIfEmpty => simp [Mode.force, r2]
+    | forceReset => exact absurd rfl hm'
+  generalize (xrun (step s (.gtl m true)).1 h).1 = S at r1 r2 hf
+  rw [r2] at hf
+  simp [step, getTimeline, r1, hf, r2]
+
+/-- after `A; snapshot; …; restore with calls from inside the reader` — GetTimelineId calls in any
+    mode among them, which settle the OLD database's timeline — the next request is fresh, once -/
+theorem staged_restore_then_timeline_fresh (s0 : Sys) (h1 h2 : List XOp) (k : Nat) (inTx : Bool) (rd : Reader)
+    (cbs : List Cb) (hk : XKeepsSlot k h2) (m : Mode) :
+    let s := (xrun s0 (h1 ++ [.plain (.snap k inTx)] ++ h2 ++ [.restoreCb k rd cbs])).1
+    (step s (.gtl m true)).2 = .tl (some (s.idf + 1)) 1 := by
+  intro s
+  have hdb := (staged_restore_snapshot s0 h1 h2 k inTx rd cbs hk).1
+  exact (staged_timeline_once s (by simp only [s, hdb, mark]) m).1
+
+/-- **model ⊨ spec over the enlarged vocabulary, all histories.**  `xspecHolds` judges a restore with
+    calls from inside its reader by: the calls like any other operation (against the bookkeeping at
+    entry), then the restore clauses against what the slot held AT ENTRY. -/
+theorem staged_model_meets_spec (h : List XOp) : xspecHolds h (xrun {} h).2 = true :=
+  xrel_run {} {} h Rel_init
+
+theorem staged_oracle_accepts_model (h : List XOp) : xspecFirstFail {} h (xrun {} h).2 0 = none :=
+  (xspecFirstFail_none_iff {} h _ 0).mpr (staged_model_meets_spec h)
+
+/-- **obligation on the regenerated field list** (Generated/DbLocks.lean, from `type DbImpl struct` and
+    the package-level variables of boltz/db.go now): a DbImpl carries no state besides the handle, the
+    lock and the listener slices — nothing read from the file is kept outside the file, so nothing
+    observed during the stream can survive the swap, which is what the model's `Sys` assumes. -/
+theorem dbimpl_state_modelled : stateModelled Generated.dbImplFields Generated.dbGoPackageVars = true := by decide
+
+/-- non-vacuity of the hypotheses: a staged restore whose reader polls the snapshot id on its first
+    Read, requests a timeline id mid-stream, writes, snapshots INTO THE SLOT BEING RESTORED and
+    registers a listener at EOF, over a database that already carries snapshot id 1 — the poll sees
+    id 1, afterwards the database reports id 2 and the content of snapshot 2 -/
+example :
+    let h : List XOp := [.plain (.tx [.put 0 1] true), .plain (.snap 0 false), .plain (.restore 0 {}), .plain .gsid,
+      .plain (.tx [.put 0 2] true), .plain (.snap 1 false), .plain (.tx [.put 0 3] true),
+      .restoreCb 1 { chunk := 0, eofWithData := true }
+        [⟨.first, .gsid⟩, ⟨.at 500, .gtl .default true⟩, ⟨.at 500, .tx [.put 5 1] true⟩, ⟨.eof, .snap 1 false⟩, ⟨.eof, .listen⟩],
+      .plain .gsid, .plain .dump]
+    (xrun {} h).2.drop 7 =
+      [.restoredCb [.sid (some 1), .tl (some 1) 1, .ok,
+                    .snapped 3 { content := [(0, 3), (5, 1)], mt := { present := true, sid := some 1, rt := some false, tl := some 1 } }, .ok]
+         1 { content := [(0, 2)], mt := { present := true, sid := some 2, rt := some true, tl := none } },
+       .plain (.sid (some 2)),
+       .plain (.dump { content := [(0, 2)], mt := { present := true, sid := some 2, rt := some true, tl := none } })] := by
+  decide
+
+/-- why `dbimpl_state_modelled` matters — the design of the seeded change C17-4, in small: GetSnapshotId
+    answers from a field of the DbImpl when it is filled and fills it otherwise; RestoreFromReader
+    empties the field on ENTRY (before stage 1).  A poll during the stream refills it from the old
+    database, and after the swap the old id is reported although the file carries the new one. -/
+def cachedPoll (cache : Option Nat) (live : Db) : Option Nat × Option Nat :=   -- (cache afterwards, reported id)
+  match cache with
+  | some id => (some id, some id)
+  | none => let r := if live.mt.present then live.mt.sid else none; (r, r)
+
+example :
+    let old : Db := { mt := { present := true, sid := some 1 } }
+    let new : Db := { mt := { present := true, sid := some 2 } }
+    let cacheAtEntry : Option Nat := none                       -- `self.snapshotId.Store(nil)` at the top
+    let duringStream := cachedPoll cacheAtEntry old             -- a poll from inside the reader
+    (cachedPoll duringStream.1 new).2 = some 1 ∧                -- after the swap: the OLD id
+    (cachedPoll cacheAtEntry new).2 = some 2 := by              -- without the poll: correct
+  decide
 
 /-! ## Concurrent clause: the lock protocol, for all interleavings -/
 
